@@ -304,6 +304,21 @@ example :
     (appendNorm e 0 0).name = [0xc3, 0xbc] ∧ (appendNorm e 0 0).flags = 0x0800 ∧ ¬ AppendClean e ∧
     (appendNorm e 0 0).localBytes.length = e.localBytes.length + 1 := by decide +kernel
 
+/-- **K-A2 (known finding), kernel-checked counterexample to "the rewritten central record and the untouched
+local header of an old entry agree"**: one entry with the unflagged CP437 name `[0x81]`.  The central
+record the writer emits for the re-hydrated record IS the spec's central record of the normalised entry
+(so the model says exactly what the code writes), that record names the entry `[0xc3, 0xbc]` with bit 11
+set, while the local header — which `new_append` never touches — still carries `[0x81]` with flags 0.
+What holds instead: `C13Layout.old_names_kept` (`old_names_kept_partial`) under `AppendClean`. -/
+theorem ka2_names_disagree_witness :
+    let e : Entry := { exA with name := [0x81] }
+    (match centralHeaderChunks (appendRecord (viewEntry e 0 0 0)) with
+     | .ok cs => ser cs == centralRecord (appendNorm e 0 0) 0 &&
+        ((ser cs).drop 8).take 2 == [0x00, 0x08] && ((ser cs).drop 46).take 2 == [0xc3, 0xbc]
+     | _ => false) = true ∧
+    ((localRecord e).drop 6).take 2 = [0x00, 0x00] ∧ ((localRecord e).drop 30).take 1 = [0x81] ∧
+    ¬ AppendClean e ∧ e.Fits ∧ e.Readable ∧ AppendNameFits e := by decide +kernel
+
 /-- A layout all of whose entries are `AppendClean`, satisfying every hypothesis of
 `append_open_is_base_state`; the conclusion evaluated. -/
 def exLc : Layout :=
